@@ -101,6 +101,59 @@ def channel_roundtrip(v):
         return ("EXC-recv", excname(e))
 
 
+W_ECHO = """
+while 1:
+    x = channel.receive()
+    if x is None:
+        break
+    channel.send(x)
+"""
+
+
+def concurrent_senders(ck, tier, rng):
+    """several OS threads of one process send large structured values at the same time, each on its own channel of one real gateway
+    (serialisation of one value spans many bytecodes: another thread's send runs in between); every value must come back equal"""
+    import threading
+
+    import execnet
+    from props import xport as X
+
+    group = execnet.Group()
+    try:
+        gw = group.makegateway("popen//id=c01c")
+        for rd in range(2 if tier == "quick" else 10):
+            nthr = 3
+            bad = []
+
+            def run(t):
+                try:
+                    ch = gw.remote_exec(W_ECHO)
+                    for j in range(4):
+                        base = t * 1000003 + j
+                        v = [list(range(base, base + 30000)), {"t": t, "j": j, "s": "x%d" % base}, (float(base), str(base) * 50)]
+                        ch.send(v)
+                        back = ch.receive(60)
+                        if C.canon(back) != C.canon(v):
+                            bad.append(("value-differs", t, j))
+                    ch.send(None)
+                    ch.waitclose(60)
+                except Exception as e:  # noqa
+                    bad.append((type(e).__name__, str(e)[:80], t))
+
+            ths = [threading.Thread(target=run, args=(t,), daemon=True) for t in range(nthr)]
+            [t.start() for t in ths]
+            [t.join(150) for t in ths]
+            if any(t.is_alive() for t in ths):
+                bad.append(("senders-blocked",))
+            ck.case(("concurrent-senders", rd), nontrivial=True)
+            ck.count("concurrent_sender_rounds")
+            if bad:
+                ck.fail("values-of-concurrent-senders-mixed-or-lost", {"threads": nthr, "observed": [list(map(str, b)) for b in bad[:4]]})
+                break
+    finally:
+        X.with_timeout(lambda: group.terminate(timeout=2.0), 30)
+
+
 def contains_kind(v, pred):
     if pred(v):
         return True
@@ -152,6 +205,8 @@ def main(tier, seed, replay=None):
         vals.append((C.nest(None, 5000, 0), "supported", "deep-nesting"))
         vals.append((10**5000, "supported", "int-digit-limit"))
         vals.append(([-(10**4400)], "supported", "int-digit-limit"))
+        for z in C.band_ints(rng, 2 if tier == "quick" else 12):
+            vals.append((z, "supported", ""))
         vals.append(([None] * 3000, "supported", ""))
         vals.append((dict.fromkeys(range(1200), ()), "supported", ""))
         for i in range(400 if tier == "quick" else 8000):
@@ -247,4 +302,6 @@ def main(tier, seed, replay=None):
         except Exception as e:  # noqa
             ck.broke("correspondence", "modelrun-codec", repr(e))
     ck.cov["programs"] = len(vals)
+    if not replay or (replay.get("signature") or "").startswith("values-of-concurrent"):
+        concurrent_senders(ck, tier, rng)
     return ck.finish(rule="values from a recursive weighted grammar over all supported types (ints around +-2^31, +-2^63 and up to 6000 bits, float/complex bit patterns incl. NaN payloads/inf/-0/subnormals, all UTF-8 length classes, containers of width 0..24 and depth 0..4, tuple/frozenset/bool/float keys, nesting to depth 250/320), plus 19 kinds of unsupported leaf (objects, subclasses of each builtin, name-colliding subclasses, surrogate strings, ...) planted at random positions; each value through dumps/loads, dump/load on BytesIO and on a chunked Popen2IO, and every third through a real Channel.send -> frame -> peer receive. distinct = distinct canonical value; non-trivial = container/str/bytes or an unsupported value.")
